@@ -14,7 +14,7 @@ for p in "$D"/*/patch.diff; do
       case "$c:$d" in
         C02:aes|C03:aes|C04:aes|C07:aes|C08:aes|C02:intel-ipsec-mb|C03:intel-ipsec-mb|C04:intel-ipsec-mb|C07:intel-ipsec-mb|C08:intel-ipsec-mb) want=1;;
         C09:rolling_hash|C08:rolling_hash) want=1;;
-        C06:*_mb|C15:*_mb|C20:*_mb|C08:*_mb|C01:*_mb) want=1;;
+        C06:*_mb|C15:*_mb|C01:*_mb) want=1;;
         C05:mh_*|C10:mh_*|C08:mh_*) want=1;;
         C17:fips) want=1;;
         *:include|*:Makefile*|*:make.inc) want=1;;
